@@ -101,13 +101,9 @@ func Empty(v reflect.Value) bool {
 	return v.IsZero()
 }
 
+// keyStr: a map key is named as Go prints it by default (fmt's %v: 1e+10 for a float key, March for
+// a time.Month key, whatever a key type's String method returns).
 func keyStr(k reflect.Value) string {
-	if k.Kind() == reflect.Float32 || k.Kind() == reflect.Float64 {
-		return fmt.Sprintf("%v", k.Interface()) // map keys are rendered with fmt's default verb (1e+10), not as decimals
-	}
-	if s, ok := Canon(k); ok {
-		return s
-	}
 	return fmt.Sprintf("%v", k.Interface())
 }
 
